@@ -178,7 +178,7 @@ fn dec_word(c: &mut Cur, max: usize) -> String {
 }
 
 fn dec_pattern(c: &mut Cur) -> String {
-    let nseg = c.u8().unwrap_or(1) as usize % 5;
+    let nseg = c.u8().unwrap_or(1) as usize % 9;
     let mut p = String::new();
     for _ in 0..nseg {
         p.push('/');
@@ -208,7 +208,7 @@ pub fn line_route(d: &[u8]) -> String {
         tbl.push(format!("{}:{}", m, hex(dec_pattern(&mut c).as_bytes())));
     }
     let qm = METHODS[c.u8().unwrap_or(0) as usize % METHODS.len()];
-    let nseg = c.u8().unwrap_or(1) as usize % 6;
+    let nseg = c.u8().unwrap_or(1) as usize % 10;
     let mut path = String::new();
     for _ in 0..nseg {
         path.push('/');
